@@ -17,7 +17,9 @@
 #include "json.hpp"
 
 // Every call into the library that could loop runs under a watchdog: SIGALRM is reported as a watchdog fault.
-namespace grv { struct GrvWatch { GrvWatch(unsigned s = 20) { alarm(s); } ~GrvWatch() { alarm(0); } }; }
+// The limit is wall-clock time and deliberately generous (a single call takes a second or two at most, also under a
+// sanitizer): checks may run side by side on a loaded machine, and a slow call must never be taken for a hang.
+namespace grv { struct GrvWatch { GrvWatch(unsigned s = 150) { alarm(s); } ~GrvWatch() { alarm(0); } }; }
 #define GRV_CAT2(a, b) a##b
 #define GRV_CAT(a, b) GRV_CAT2(a, b)
 #define GRV_WATCHDOG grv::GrvWatch GRV_CAT(grv_watch_guard_, __COUNTER__)
